@@ -327,7 +327,7 @@ where
             store: self.rootstore(),
             resources: smallvec!(self.handle()),
             resourcecursor: 0,
-            fragment: fragment.to_lowercase(),
+            fragment: fold_case(fragment),
             offset: Offset::whole(),
         }
     }
@@ -502,7 +502,7 @@ where
             store: self.rootstore(),
             resources: smallvec!(self.resource().handle()),
             resourcecursor: 0,
-            fragment: fragment.to_lowercase(),
+            fragment: fold_case(fragment),
             offset: Offset::from(self),
         }
     }
@@ -708,7 +708,7 @@ where
             store: self.rootstore(),
             resources: smallvec!(self.resource().handle()),
             resourcecursor: 0,
-            fragment: fragment.to_lowercase(),
+            fragment: fold_case(fragment),
             offset: Offset::from(self),
         }
     }
@@ -787,7 +787,7 @@ impl AnnotationStore {
                 .filter_map(|x| x.as_ref().map(|res| res.handle().unwrap()))
                 .collect(),
             resourcecursor: 0,
-            fragment: fragment.to_lowercase(),
+            fragment: fold_case(fragment),
             offset: Offset::whole(),
         }
     }
@@ -1165,19 +1165,32 @@ impl<'a, 'b> Iterator for FindTextIter<'a, 'b> {
         }
     }
 }
+/// Lowercases a single character for case-insensitive comparison. Unlike `str::to_lowercase()` this does
+/// not depend on the surrounding characters: the Greek capital sigma always becomes 'σ', and so does the
+/// final form 'ς', so that all forms of the sigma compare equal wherever they stand in a word.
+fn fold_char(c: char) -> impl Iterator<Item = char> {
+    c.to_lowercase().map(|x| if x == 'ς' { 'σ' } else { x })
+}
+
+/// Lowercases a text character by character for case-insensitive comparison (see [`fold_char()`]),
+/// the result for a slice of a text is the corresponding slice of the result for the whole text.
+pub(crate) fn fold_case(text: &str) -> String {
+    text.chars().flat_map(fold_char).collect()
+}
+
 /// Finds the first occurrence of the (already lowercased) fragment in the lowercased form of the text,
 /// and returns the begin and end of the match as utf-8 byte offsets in the *original* text.
 /// Lowercasing may change the byte length of a character (e.g. U+0130, U+212A, U+1E9E), so offsets
 /// in the lowercased text can not be used on the original text directly. Matches that do not begin and end
 /// on a character boundary of the original text (i.e. inside the expansion of a single character) are skipped.
 fn find_nocase_bytes(text: &str, fragment: &str) -> Option<(usize, usize)> {
-    let lowered = text.to_lowercase();
+    let lowered = fold_case(text);
     //maps each character boundary in the lowercased text to the corresponding boundary in the original text
     let mut bounds: Vec<(usize, usize)> = Vec::with_capacity(text.len() + 1);
     let mut loweredpos = 0;
     for (bytepos, c) in text.char_indices() {
         bounds.push((loweredpos, bytepos));
-        loweredpos += c.to_lowercase().map(|x| x.len_utf8()).sum::<usize>();
+        loweredpos += fold_char(c).map(|x| x.len_utf8()).sum::<usize>();
     }
     bounds.push((loweredpos, text.len()));
     if loweredpos != lowered.len() {
